@@ -147,10 +147,8 @@ def evaluate(case):
         refb = RefAcc(init)
         # `rotate`: the breakpoint gets the same commands in rotated order, so filter and breakpoint differ
         bseq = seq[1:] + seq[:1] if case.get('rotate') else seq
-        o, _ = s.cmd('filter')
-        prev_f = printed_matcher(o, 'Output filter: ')
-        o, _ = s.cmd('breakpoint')
-        prev_b = printed_matcher(o, 'Breakpoint matcher: ')
+        prev_f = outparse.queried_matcher(s.cmd('filter')[0])
+        prev_b = outparse.queried_matcher(s.cmd('breakpoint')[0])
         for cmd, bcmd in zip(seq, bseq):
             text = cmd[0]
             before = reff.key()
@@ -162,12 +160,12 @@ def evaluate(case):
             if case.get('rotate'):
                 # only the selections are compared in this mode (confirmation lines are judged in the plain mode)
                 continue
-            if cmd[1] == 'SHOW':
-                cur_f = printed_matcher(of, 'Output filter: ')
-                cur_b = printed_matcher(ob, 'Breakpoint matcher: ')
-            else:
-                cur_f = printed_matcher(of, 'Only showing messages that match ')
-                cur_b = printed_matcher(ob, 'Breaking on messages that match: ')
+            # every command answers with at least one line; the current matchers are read back with the no-argument forms
+            if not (of or ef) or not (ob or eb):
+                V.append(Violation('accumulate.confirmation', case, dict(step, filter_out=of, breakpoint_out=ob)))
+                break
+            cur_f = outparse.queried_matcher(s.cmd('filter')[0])
+            cur_b = outparse.queried_matcher(s.cmd('breakpoint')[0])
             if cur_f is None or cur_b is None:
                 V.append(Violation('accumulate.confirmation', case, dict(step, filter_out=of, breakpoint_out=ob)))
                 break
